@@ -346,9 +346,16 @@ def r7(ctx, facts):
     r.instance("next-round-only-after-reply", ready_only, "a Pending keepalive must be polled again, not abandoned for the next tick (the timeout/err exits are rule R5)", issue[0].span)
 
 
+def r8(ctx, facts):
+    """shared with C06.R4: after a connection (or a whole pool) is gone the request moves on to the remaining targets"""
+    r = ctx.rule("R8", "a target without a usable connection is skipped: the request fiber advances its plan instead of asking the same pool again", floor=1)
+    from .c06 import failed_pick
+    failed_pick(r, facts)
+
+
 def check(ctx):
     facts = inline_view(ctx.facts("default"))
-    for fn in (r1, r2_r5, r3, r4, r6, r7):
+    for fn in (r1, r2_r5, r3, r4, r6, r7, r8):
         try:
             fn(ctx, facts)
         except AnchorLost as ex:
